@@ -27,6 +27,32 @@ impl Controller for FsyncFault {
     }
 }
 
+/// Fails the n-th call of one kind with `errno` (used by several properties' fault sections).
+pub struct NthKindFault {
+    pub kind: Kind,
+    pub nth: i64,
+    pub errno: i32,
+    seen: AtomicI64,
+}
+
+impl NthKindFault {
+    pub fn new(kind: Kind, nth: i64, errno: i32) -> NthKindFault {
+        NthKindFault { kind, nth, errno, seen: AtomicI64::new(0) }
+    }
+}
+
+impl Controller for NthKindFault {
+    fn before(&self, ev: &Ev) -> Action {
+        if ev.kind == self.kind {
+            let k = self.seen.fetch_add(1, SeqCst);
+            if k == self.nth {
+                return Action::Fail(self.errno);
+            }
+        }
+        Action::Proceed
+    }
+}
+
 #[derive(Clone, Debug)]
 pub struct Case {
     pub cell: Cell,
